@@ -133,6 +133,10 @@ def verify_uri(
         raise ValueError(f"Wrong uri_type: {uri_type}")
 
     req_redirect_uri = unquote(req_redirect_uri_quoted)
+    # urlparse silently strips leading C0 control characters and spaces and removes TAB, CR and
+    # LF wherever they are: what would be compared is then not where the response is sent.
+    if req_redirect_uri[:1] <= " " or any(c in req_redirect_uri for c in "\t\r\n"):
+        raise URIError("Contains control characters")
     req_redirect_uri_obj = urlparse(req_redirect_uri)
     if req_redirect_uri_obj.fragment:
         raise URIError("Contains fragment")
